@@ -152,6 +152,8 @@ def main(tier, seed):
             nviol += 1
             if nviol <= 3:
                 rep.violation("KNN-supervised training assigned label %d to training sample %d (true label %d)" % (pl[q], q, want[q]), d, key="resub:knn")
+    import large
+    nviol += large.sup_large(rep, rng, tier, {"resub_offset"})
     rep.corr["knn_any_data"] = dict(cases=stats["knn"])
     rep.extra["oracle_violations"] = nviol
     rep.extra["eligible_metrics"] = ELIGIBLE
